@@ -350,11 +350,13 @@ def run(ctx: Ctx, repo: Repo, tier: str) -> None:
               "issubclass()/inspect.getmro() raise TypeError/AttributeError on non-classes; generic aliases have no __bases__/__mro__; "
               "Tuple[()].__args__ == () and bare Tuple has no __args__ (CPython >= 3.11)")
     ctx.assume("members of the union are leaves for self.rewrite (inner recursion is decided by the container-recursion rule)")
-    rule_rewriters(ctx, repo, tier)
-    rule_no_memory(ctx, repo)
-    rule_chain(ctx, repo)
-    rule_container_recursion(ctx, repo)
-    rule_dispatch(ctx, repo)
-    rule_nested(ctx, repo)
+    # a construct outside one rule's scenarios must not silence the others (a violation found by any of them is reported)
+    ctx.attempt(rule_rewriters, ctx, repo, tier)
+    ctx.attempt(rule_no_memory, ctx, repo)
+    ctx.attempt(rule_chain, ctx, repo)
+    ctx.attempt(rule_container_recursion, ctx, repo)
+    ctx.attempt(rule_dispatch, ctx, repo)
+    ctx.attempt(rule_nested, ctx, repo)
     from .compat_rules import compat_predicates
     compat_predicates(ctx, repo, "R-C07.5", ("is_generic_of", "is_union", "is_generic", "is_any", "is_typed_dict", "types_equal"))
+    ctx.settle()
